@@ -178,7 +178,7 @@ def events_of_log(log, scn=None):
             evs.append("ExecEnd %d %s %s" % (kid("p", pid_), coutcome(out[0], out[1] if len(out) > 1 else None), cbool(same)))
         elif k == "Mark":
             evs.append("Quiesce")
-        elif k in ("End", "Timeout", "HarnessError"):
+        elif k in ("End", "Timeout", "HarnessError", "Call", "IdleShutdown"):
             pass
         else:
             raise ValueError("unknown log event %r" % (e,))
@@ -214,7 +214,7 @@ class Builder:
         spec = {"flavour": flavour, "script": script}
         if self.rng.random() < 0.15:
             # not a plain function: a decorated one, a lambda, a callable object, a bound method
-            spec["shape"] = self.rng.choice(["wrapped", "lambda", "object", "method"])
+            spec["shape"] = self.rng.choice(["wrapped", "lambda", "object", "method", "nomodule"])
         if cleanup:
             spec["cleanup"] = cleanup
         if args:
@@ -271,15 +271,17 @@ def rnd_bystander_script(rng, flavour):
         return [["beat", 5, 0.01], ["block", 30]]
     if r < 0.4:
         return [["beat", 3000, 0.01]]
-    if r < 0.6:
+    if r < 0.55:
         return [["step"], ["forever"]]
+    if r < 0.65:
+        return [["step"], ["park"]]
     if r < 0.8:
         return [["spin", 150], ["forever"]]
     return [["beat", 3, 0.005], ["forever"]]
 
 
 def rnd_args(rng):
-    pool = [0, 1, -3, "a", "", None, True, [1, "x"], [[2], None]]
+    pool = [0, 1, -3, "a", "", None, True, [1, "x"], [[2], None], "\u00a7badrepr"]
     args = [rng.choice(pool) for _ in range(rng.choice([0, 0, 1, 2, 3]))]
     kwargs = {k: rng.choice(pool) for k in rng.sample(["k", "key", "x", "flavour_", "args"], rng.choice([0, 0, 1, 2]))}
     return args, kwargs
@@ -421,8 +423,10 @@ def gen_stop(rng):
         caller = b.payload(cfl, script + rnd_bystander_script(rng, cfl), rnd_cleanup(rng, cfl))
         h.append(["adopt", 0, caller])
         stalls = cfl != "threading"      # a coroutine caller blocks its own loop while it waits
-    trigger = rng.choice(["shutdown", "shutdown", "sigint", "thread_shutdown", "kbd", "fail"])
+    trigger = rng.choice(["shutdown", "shutdown", "sigint", "thread_shutdown", "coroutine_shutdown", "kbd", "fail"])
     when = rng.choice(["early", "mid", "late"])
+    if rng.random() < 0.3:
+        h.append(["gc"])             # a full collection while everything is up (parked payloads are only held by the runtime)
     if when == "mid":
         h.append(["sleep", rng.choice([0.01, 0.03, 0.07, 0.12])])
     elif when == "late":
@@ -436,6 +440,10 @@ def gen_stop(rng):
         pid = b.payload("threading", [["wait", "go"], ["shutdown", 0]])
         b.main.append(["adopt", 0, pid])
         h.append(["set", "go"])
+    elif trigger == "coroutine_shutdown":
+        pid = b.payload(rng.choice(["asyncio", "trio"]), [["wait", "go"], ["shutdown_via_thread", 0], ["forever"]])
+        b.main.append(["adopt", 0, pid])
+        h.append(["set", "go"])
     elif trigger == "kbd":
         fl = rng.choice(["asyncio", "threading"])
         pid = b.payload(fl, [["wait", "go"], ["kbd"]])
@@ -447,7 +455,7 @@ def gen_stop(rng):
         b.main.append(["adopt", 0, pid])
         h.append(["set", "go"])
     second = None
-    if trigger in ("fail", "shutdown", "thread_shutdown") and rng.random() < 0.3:
+    if trigger in ("fail", "shutdown", "thread_shutdown", "coroutine_shutdown") and rng.random() < 0.3:
         # a second trigger while the first one is still being worked off: an interrupt arrives during a slow
         # shielded cleanup (the run still ends only when that cleanup is through)
         slow = b.payload("trio", [["beat", 3000, 0.01]], {"sync": 1, "shield": rng.choice([0.4, 0.8]), "shield_steps": 5})
@@ -731,6 +739,14 @@ def gen_overlap(rng):
         # work from inside their loops (adopt, a new service): blocking inside thread payloads stalls nobody
         blk = b.payload("threading", [["step"], ["block", 1.4]])
         b.helpers.append([["wait_running", 0], ["sleep", 0.1], ["execute", 0, blk]])
+        if rng.random() < 0.5:
+            # ... and several dozen thread payloads are blocked at the same time (threads are not a scarce resource
+            # the coroutine payloads would have to wait for)
+            blockers = [b.payload("threading", [["block", 1.4]]) for _ in range(rng.choice([36, 48]))]
+            b.helpers.append([["wait_running", 0]] + [["adopt", 0, q] for q in blockers])
+            for fl in ("asyncio", "trio"):
+                late = b.payload("threading", [["step"]])
+                b.main.append(["adopt", 0, b.payload(fl, [["sleep", 0.35], ["adopt", 0, late], ["forever"]])])
         for fl in ("asyncio", "trio"):
             w = b.payload(rng.choice(FLS), [["step"], ["forever"]] if fl else [])
             sid = b.service(rng.choice(["asyncio", "trio"]), [["step"], ["forever"]])
@@ -805,9 +821,18 @@ def gen_lifecycle(rng):
             pid = b.payload("threading", [["wait", ev], ["shutdown", r]])
             b.main.append(["adopt", r, pid])
             h.append(["set", ev])
+        for _ in range(rng.choice([0, 0, 1, 2])):
+            sfl = rng.choice(FLS)
+            b.main.append(["service", b.service(sfl, rnd_bystander_script(rng, sfl), rnd_cleanup(rng, sfl))])
+        if rng.random() < 0.3:
+            b.main.append(["shutdown_idle", r])          # shutdown() of a runtime that is not running: no effect on its next run
+            if rng.random() < 0.5:
+                b.main.append(["shutdown_idle", r])
         b.main.append(["accept", r])
         h.append(["wait", "ended%d" % r])
         b.main.append(["set", "ended%d" % r])
+        if rng.random() < 0.3:
+            b.main.append(["shutdown_idle", r])          # ... nor has a late cleanup call after the run has ended
     b.helpers.append(h)
     b.meta = {"family": "lifecycle", "ends": ends}
     if rng.random() < 0.4:
@@ -917,7 +942,7 @@ FAMILIES = {"storm": gen_storm, "churn": gen_churn, "fail": gen_fail, "stop": ge
 MIX = {
     "C01": [("fail", 0.8), ("stop", 0.1), ("lifecycle", 0.1)],
     "C02": [("stop", 0.55), ("fail", 0.27), ("lifecycle", 0.08), ("churn", 0.1)],
-    "C03": [("adopt", 0.72), ("stop", 0.07), ("fail", 0.06), ("churn", 0.08), ("storm", 0.07)],
+    "C03": [("adopt", 0.66), ("stop", 0.07), ("fail", 0.06), ("churn", 0.08), ("storm", 0.06), ("lifecycle", 0.07)],
     "C10": [("exec", 0.9), ("overlap", 0.1)],
     "C11": [("overlap", 0.6), ("exec", 0.25), ("lifecycle", 0.15)],
     "C12": [("lifecycle", 0.55), ("stop", 0.2), ("churn", 0.25)],
@@ -1334,6 +1359,13 @@ def oracle_C11(v):
             inside[(r, fl)] = "%s%d" % (e[1], e[2])
         elif e[0] == "Exit" and (e[1], e[2]) in cor:
             inside[(own.get((e[1], e[2]), 0), cor[(e[1], e[2])])] = None
+    # the synchronous part of a coroutine payload (a decorator's body, a lambda) runs where its coroutine runs
+    start_tid = {(e[1], e[2]): tid for (_i, _t, tid, e) in v.find("Start")}
+    for (_i, _t, tid, e) in v.find("Call"):
+        key = (e[1], e[2])
+        if key in cor and key in start_tid and start_tid[key] != tid:
+            out.append("off-loop: the synchronous part of %s payload %s%d ran on thread %s, its coroutine on thread %s"
+                       % (cor[key], key[0], key[1], tid, start_tid[key]))
     # two loops of one flavour at once: a coroutine payload of a run that has ENDED is still executing (steps,
     # cleanup) after a coroutine payload of the same flavour of a later run has started
     ended = {}
@@ -1372,6 +1404,9 @@ def oracle_C11(v):
 
 def oracle_C12(v):
     out = []
+    for (_i, _t, _tid, e) in v.find("IdleShutdown"):
+        if e[3] != "ok":
+            out.append("idle-shutdown: shutdown() of runner %d while it was not running gave %s" % (e[2], e[3]))
     live = None
     for (i, t, _tid, e) in v.ev:
         if e[0] == "AcceptCall":
